@@ -207,8 +207,13 @@ def _lonw(c):
   pre = _lon_sig(c, algok)
   same = r.close(pre + ':weights', got, truth, TOL_IRR)
   if c.get('eager'):
+    s0, t0 = src.copy(), tgt.copy()
     got_e = np.asarray(hi.conservative_longitude_weights(src, tgt), dtype=np.float64)
     r.close(pre + ':weights_eager', got_e, truth, TOL_IRR)
+    got_e = np.asarray(hi.conservative_longitude_weights(src, tgt), dtype=np.float64)      # same argument objects again
+    r.close(pre + ':weights_eager_second_call', got_e, truth, TOL_IRR)
+    if not (np.array_equal(src, s0) and np.array_equal(tgt, t0)):
+      r.bad(pre + ':arguments_modified', 'conservative_longitude_weights changed its coordinate arguments in place')
   if same:
     r.n += 3
     if (got < 0).any():
@@ -368,8 +373,13 @@ def _latw(c):
     got = np.asarray(fn(src, tgt), dtype=np.float64)
     same = r.close(f'lat:weights:{mode}', got, W, TOL_IRR)
     if c.get('eager'):
+      s0, t0 = np.array(src, copy=True), np.array(tgt, copy=True)
       got_e = np.asarray(hi.conservative_latitude_weights(src, tgt), dtype=np.float64)
       r.close(f'lat:weights_eager:{mode}', got_e, W, TOL_IRR)
+      got_e = np.asarray(hi.conservative_latitude_weights(src, tgt), dtype=np.float64)     # same argument objects again
+      r.close(f'lat:weights_eager_second_call:{mode}', got_e, W, TOL_IRR)
+      if not (np.array_equal(np.asarray(src), s0) and np.array_equal(np.asarray(tgt), t0)):
+        r.bad(f'lat:arguments_modified:{mode}', 'conservative_latitude_weights changed its coordinate arguments in place')
     if not same:
       continue
     r.n += 4
@@ -636,7 +646,7 @@ def run(ctx):
   for lst in (lonw, latw):
     lst.sort(key=lambda c: _key(c['key']))
     for i, c in enumerate(lst):
-      c['eager'] = i % 64 == 0
+      c['eager'] = i % 16 == 0
   if not (vitems and lonw and lona and latw and lata):
     raise common.MachineryError('an export is empty')
   # products of Grid configurations of both axes (+ Gauss latitudes)
